@@ -63,6 +63,18 @@ def sites(fn_node):
             out.append(("drop attribute assignment `%s`" % ast.unparse(n)[:50], idx, "drop"))
         elif isinstance(n, ast.Return) and n.value is not None and not (isinstance(n.value, ast.Constant) and n.value.value is None):
             out.append(("return None instead of `%s`" % ast.unparse(n.value)[:40], idx, "retnone"))
+        if isinstance(n, ast.Compare) and len(n.ops) == 1 and isinstance(n.ops[0], (ast.IsNot, ast.Is)) and isinstance(n.comparators[0], ast.Constant) and n.comparators[0].value is None:
+            out.append(("truthiness instead of `%s`" % ast.unparse(n)[:40], idx, "truthy"))
+        if isinstance(n, ast.Call) and len(n.args) >= 2 and not any(isinstance(a, ast.Starred) for a in n.args[:2]):
+            out.append(("swap the first two arguments of `%s`" % ast.unparse(n)[:40], idx, "swapargs"))
+        if isinstance(n, ast.Call) and isinstance(n.func, ast.Name) and n.func.id in ("sorted", "reversed") and len(n.args) == 1 and not n.keywords:
+            out.append(("drop %s()" % n.func.id, idx, "unwrap"))
+        if isinstance(n, ast.ExceptHandler) and n.type is not None and ast.unparse(n.type) not in ("Exception", "BaseException"):
+            out.append(("widen `except %s` to `except Exception`" % ast.unparse(n.type)[:40], idx, "widen"))
+        if isinstance(n, ast.Raise) and n.cause is not None:
+            out.append(("drop `from ...` of a raise", idx, "nocause"))
+    if os.environ.get("MUTATION_KINDS"):
+        out = [x for x in out if x[2] in os.environ["MUTATION_KINDS"].split(",")]
     return out
 
 
@@ -95,6 +107,27 @@ def apply_site(fn_node, idx, kind):
                     val[val.index(n)] = ast.Pass()
     elif kind == "retnone":
         n.value = ast.Constant(value=None)
+    elif kind == "truthy":
+        repl = n.left if isinstance(n.ops[0], ast.IsNot) else ast.UnaryOp(op=ast.Not(), operand=n.left)
+        for p in ast.walk(f2):
+            for field, val in ast.iter_fields(p):
+                if val is n:
+                    setattr(p, field, repl)
+                elif isinstance(val, list) and n in val:
+                    val[val.index(n)] = repl
+    elif kind == "swapargs":
+        n.args[0], n.args[1] = n.args[1], n.args[0]
+    elif kind == "unwrap":
+        for p in ast.walk(f2):
+            for field, val in ast.iter_fields(p):
+                if val is n:
+                    setattr(p, field, n.args[0])
+                elif isinstance(val, list) and n in val:
+                    val[val.index(n)] = n.args[0]
+    elif kind == "widen":
+        n.type = ast.Name(id="Exception", ctx=ast.Load())
+    elif kind == "nocause":
+        n.cause = None
     ast.fix_missing_locations(f2)
     return f2
 
